@@ -770,6 +770,7 @@ func r42CornerOfOrigin(c *core.Ctx) {
 		// the y result must contain origin[1] with coefficient +1 (ToNative, MatrixBoundingBox) resp. the native y with
 		// coefficient -1/+1 (FromNative)
 		arms := evalWithCornerSwitch(c, f)
+		normaliseAddressingNames(c, f, arms)
 		signOK := func(arm string) (bool, string) {
 			e := arms.arms[arm]
 			if e == nil {
